@@ -1,5 +1,6 @@
 /- The matrix Fourier variants of Mpir/Model/FftX.lean: mpir_revbin, the twiddled column transforms. -/
 import MpirProofs.Lemmas.FftXTrunc
+import Mathlib.Algebra.BigOperators.Ring.Finset
 set_option linter.unusedSimpArgs false
 namespace Mpir.FftX
 open Mpir Finset
@@ -27,5 +28,95 @@ theorem revbin_rev (bits k : Nat) (hk : k < 2 ^ bits) : revbin k bits = rev bits
         _ = 16 := by norm_num)
     exact tab bits h k hk16 hk
   · rw [revLoop_eq, Nat.mod_eq_of_lt hk]; simp
+
+/-! ### the twiddled column transform: the DFT, each output multiplied by z^(row·c) -/
+
+theorem length_fft_radix2_twiddle (d w ws r c rs : Nat) (xs : List Int) :
+    (fft_radix2_twiddle d w ws r c rs xs).length = 2 ^ (d + 1) := by
+  induction d generalizing w r rs xs with
+  | zero => simp [fft_radix2_twiddle]
+  | succ d ih => simp only [fft_radix2_twiddle, List.length_append, ih]; ring
+
+section ring
+variable {S : Type} [CommRing S] (f : ℤ →+* S)
+
+/-- mpir_fft_radix2_twiddle: position k holds the DFT value of frequency rev(k), multiplied by 2^((r + rs·rev k)·c·ws)
+    — with r = 0, rs = 1 the twiddle z^(frequency·column) of the matrix Fourier algorithm (z = 2^ws) -/
+theorem fft_radix2_twiddle_dft (d w ws r c rs : Nat) (xs : List Int) (hz : f 2 ^ (2 ^ d * w) = -1) (k : Nat)
+    (hk : k < 2 ^ (d + 1)) :
+    f (el (fft_radix2_twiddle d w ws r c rs xs) k) =
+      (∑ j ∈ range (2 ^ (d + 1)), f (el xs j) * (f 2 ^ w) ^ (rev (d + 1) k * j)) *
+        f 2 ^ ((r + rs * rev (d + 1) k) * c * ws) := by
+  induction d generalizing w r rs xs k with
+  | zero =>
+    simp only [Nat.pow_zero, Nat.one_mul, Nat.zero_add, Nat.pow_one] at hz hk ⊢
+    simp only [fft_radix2_twiddle, bflyTw]
+    have r0 : rev 1 0 = 0 := by decide
+    have r1 : rev 1 1 = 1 := by decide
+    interval_cases k
+    · rw [el_cons_zero, r0]
+      simp only [sum_range_succ, sum_range_zero, map_mul, map_add, map_pow, Nat.zero_mul, Nat.mul_zero, pow_zero,
+        mul_one, zero_add, Nat.add_zero]
+    · rw [show ∀ a b : Int, el [a, b] 1 = b from fun _ _ => rfl, r1]
+      simp only [sum_range_succ, sum_range_zero, map_mul, map_sub, map_pow, Nat.zero_mul, Nat.mul_zero, pow_zero,
+        mul_one, zero_add, Nat.mul_one, Nat.one_mul, pow_one, hz]
+      have e : (r * c + rs * c) * ws = (r + rs) * c * ws := by ring
+      rw [e]; ring
+  | succ d ih =>
+    have hp : 2 ^ (d + 1 + 1) = 2 * 2 ^ (d + 1) := by rw [pow_succ]; ring
+    have hz' : f 2 ^ (2 ^ d * (2 * w)) = -1 := by rw [← hz]; congr 1; rw [pow_succ]; ring
+    have hzz : (f 2 ^ w) ^ 2 ^ (d + 1) = -1 := by rw [← pow_mul, mul_comm]; exact hz
+    have e2 : f 2 ^ (2 * w) = (f 2 ^ w) ^ 2 := by rw [← pow_mul, mul_comm]
+    have er : rev (d + 1 + 1) k = if k < 2 ^ (d + 1) then 2 * rev (d + 1) k else 2 * rev (d + 1) (k - 2 ^ (d + 1)) + 1 := by
+      rw [rev]
+    simp only [fft_radix2_twiddle]
+    by_cases h : k < 2 ^ (d + 1)
+    · rw [el_append_left _ _ _ (by rw [length_fft_radix2_twiddle]; exact h), ih _ _ _ _ hz' k h, er, if_pos h, e2, hp]
+      rw [← dif_even (f 2 ^ w) (2 ^ (d + 1)) hzz (fun j => f (el xs j)) (rev (d + 1) k)]
+      congr 1
+      · apply sum_congr rfl; intro j hj
+        rw [el_fsts _ _ _ (mem_range.mp hj)]; simp [bfly]
+      · congr 1; ring
+    · have hk' : k - 2 ^ (d + 1) < 2 ^ (d + 1) := by omega
+      have ek : k = 2 ^ (d + 1) + (k - 2 ^ (d + 1)) := by omega
+      rw [er, if_neg h]
+      rw [ek, el_append_right' _ _ (2 ^ (d + 1)) _ (length_fft_radix2_twiddle _ _ _ _ _ _ _), ih _ _ _ _ hz' _ hk', e2, hp]
+      have ek' : 2 ^ (d + 1) + (k - 2 ^ (d + 1)) - 2 ^ (d + 1) = k - 2 ^ (d + 1) := by omega
+      rw [ek']
+      rw [← dif_odd (f 2 ^ w) (2 ^ (d + 1)) hzz (fun j => f (el xs j)) (rev (d + 1) (k - 2 ^ (d + 1)))]
+      congr 1
+      · apply sum_congr rfl; intro j hj
+        rw [el_snds _ _ _ (mem_range.mp hj)]
+        simp only [bfly, map_mul, map_sub, map_pow]
+        congr 2; rw [← pow_mul, mul_comm]
+      · congr 1; ring
+
+/-! ### the index arithmetic of the matrix Fourier algorithm -/
+
+theorem sum_range_mul_eq (n1 n2 : Nat) (F : Nat → S) :
+    ∑ k ∈ range (n1 * n2), F k = ∑ m ∈ range n2, ∑ i ∈ range n1, F (i + m * n1) := by
+  induction n2 with
+  | zero => simp
+  | succ n2 ih =>
+    rw [Nat.mul_succ, sum_range_add, ih, sum_range_succ]
+    congr 1
+    apply sum_congr rfl; intro i _; congr 1; ring
+
+/-- n = n1·n2, ω of order dividing n: the length-n2 DFTs of the columns (root ω^n1), the twiddles ω^(j·i), then the
+    length-n1 DFTs of the rows (root ω^n2) give the length-n DFT: entry (row j, column t) is the value of
+    frequency j + n2·t -/
+theorem mfa_index (ω : S) (n1 n2 : Nat) (hω : ω ^ (n1 * n2) = 1) (x : Nat → S) (j t : Nat) :
+    ∑ i ∈ range n1, ((∑ m ∈ range n2, x (i + m * n1) * (ω ^ n1) ^ (j * m)) * ω ^ (j * i)) * (ω ^ n2) ^ (t * i) =
+      ∑ k ∈ range (n1 * n2), x k * ω ^ ((j + n2 * t) * k) := by
+  rw [sum_range_mul_eq, sum_comm]
+  apply sum_congr rfl; intro i _
+  rw [sum_mul, sum_mul]
+  apply sum_congr rfl; intro m _
+  have e : ω ^ ((j + n2 * t) * (i + m * n1)) =
+      (ω ^ n1) ^ (j * m) * ω ^ (j * i) * (ω ^ n2) ^ (t * i) * (ω ^ (n1 * n2)) ^ (t * m) := by
+    simp only [← pow_mul, ← pow_add]; congr 1; ring
+  rw [e, hω]; simp; ring
+
+end ring
 
 end Mpir.FftX
